@@ -19,7 +19,7 @@ RULE = ("one evaluation = one seeded history (<= 60 operations on a dataset of <
         "even-odd polygon test), and at the end with a freshly built dataset given the same final settings. "
         "non-trivial = >=1 setting change and >=1 comparison; distinct = distinct event-log digests")
 STATE_MEASURE = "distinct (active ranges, #polygons, invalid flag, enabled flag, limit>0, manual-any, previous operation kind) tuples"
-PROBES = ["polygon_removed_via_config", "half_specified_range", "apply_failed_on_half_range", "range_removed_after_apply", "range_reversed", "range_min_eq_max", "bound_tied_with_data", "nan_in_range_feature",
+PROBES = ["lookalike_dataset_filtered_before", "polygon_removed_via_config", "half_specified_range", "apply_failed_on_half_range", "range_removed_after_apply", "range_reversed", "range_min_eq_max", "bound_tied_with_data", "nan_in_range_feature",
           "polygon_modified_in_place", "polygon_inverted", "polygon_removed", "limit_binding", "limit_not_binding",
           "disabled", "reset_with_state", "manual_edit", "force_apply", "file_backed", "apply_twice_same"]
 COMPONENTS = {"real": ["dclab Filter.update / RTDCBase.apply_filter / Configuration", "dclab PolygonFilter + compiled points_in_poly",
@@ -99,6 +99,25 @@ class World:
         self.n = k["n"]
         self.data = make_data(ctx.seed, self.n, k["nan"])
         self.backing = k["backing"]
+        if self.backing == "dict" and self.n > 2 and seeds.H(ctx.seed, "lookalike") % 3 == 0:
+            # a look-alike dataset handled before: same alphabetically first feature and the same feature names, invalid
+            # values at other events; its invalid events were removed
+            first = sorted(self.data)[0]
+            dd = {}
+            for f, v in self.data.items():
+                w = np.array(v, dtype=float, copy=True)
+                if f != first:
+                    w = np.where(np.isfinite(w), w, 1.0)
+                    w[(seeds.H(ctx.seed, "la", f) % self.n)] = np.nan
+                    w[(seeds.H(ctx.seed, "lb", f) % self.n)] = np.inf
+                dd[f] = w
+            la = dclab.new_dataset(dd)
+            la.config["filtering"]["remove invalid events"] = True
+            with warnings.catch_warnings():
+                warnings.simplefilter("ignore")
+                la.apply_filter()
+            self.lookalike = la
+            ctx.probe("lookalike_dataset_filtered_before")
         self.ds = self.build()
         self.polys = []          # PolygonFilter objects registered with the dataset
         self.applied_once = False
